@@ -272,6 +272,7 @@ class SymT:
         self.env = {}
         self.guards = []          # conditions under which the function raises ValueError (in program order)
         self.ignore_calls = set(ignore_calls)
+        self.lists = {}           # python name -> list of (lean text, type) built by `name = []` / `name.append(x)`
 
     @staticmethod
     def cast(v, want):
@@ -316,6 +317,12 @@ class SymT:
             if isinstance(f, ast.Name) and f.id == "int" and len(n.args) == 1 and isinstance(n.args[0], ast.Call) \
                     and isinstance(n.args[0].func, ast.Name) and n.args[0].func.id == "round":
                 return (f"(roundHalfEven {self.cast(self.expr(n.args[0].args[0]), 'rat')})", "int")
+            if isinstance(f, ast.Name) and f.id == "len" and len(n.args) == 1 and isinstance(n.args[0], ast.Name):
+                k = 0
+                while f"{n.args[0].id}[{k}]" in self.env:
+                    k += 1
+                if k:
+                    return (str(k), "num")
             if isinstance(f, ast.Attribute) and isinstance(f.value, ast.Name) and f.value.id == "np" and f.attr == "allclose" and len(n.args) == 2:
                 return (f"(allclose1 {self.cast(self.expr(n.args[0]), 'rat')} {self.cast(self.expr(n.args[1]), 'rat')})", "bool")
             _fail(n, "unsupported call")
@@ -323,6 +330,13 @@ class SymT:
             key = f"{n.value.id}[{n.slice.value}]"
             if key in self.env:
                 return self.env[key]
+        if isinstance(n, ast.Subscript) and isinstance(n.value, ast.Name):
+            # index computed from unrolled loop counters: fold the constant
+            t, ty = self.expr(n.slice)
+            if ty == "num" and set(t) <= set("0123456789+-*() "):
+                key = f"{n.value.id}[{eval(t)}]"      # noqa: S307 (digits and + - * only)
+                if key in self.env:
+                    return self.env[key]
         _fail(n, "unsupported expression")
 
     def cond(self, n):
@@ -330,6 +344,21 @@ class SymT:
             t, ty = self.expr(n)
             if ty == "bool":
                 return f"{t} = true"
+        if isinstance(n, ast.UnaryOp) and isinstance(n.op, ast.Not):
+            return f"¬ ({self.cond(n.operand)})"
+        if isinstance(n, ast.BoolOp):
+            sym = " ∨ " if isinstance(n.op, ast.Or) else " ∧ "
+            return "(" + sym.join(f"({self.cond(v)})" for v in n.values) + ")"
+        if isinstance(n, ast.Call) and isinstance(n.func, ast.Attribute) and isinstance(n.func.value, ast.Name) \
+                and n.func.value.id == "np" and n.func.attr == "any" and len(n.args) == 1 and isinstance(n.args[0], ast.Compare):
+            # np.any(np.array([a, b]) > c)  ->  a > c ∨ b > c ;  np.any(x > c) on a scalar stand-in -> x > c
+            cmp_ = n.args[0]
+            left = cmp_.left
+            if isinstance(left, ast.Call) and isinstance(left.func, ast.Attribute) and left.func.attr == "array" \
+                    and len(left.args) == 1 and isinstance(left.args[0], (ast.List, ast.Tuple)):
+                parts = [self.cond(ast.Compare(left=e, ops=cmp_.ops, comparators=cmp_.comparators)) for e in left.args[0].elts]
+                return "(" + " ∨ ".join(f"({c})" for c in parts) + ")"
+            return self.cond(cmp_)
         if isinstance(n, ast.Compare) and len(n.ops) == 1:
             a = self.expr(n.left)
             op = n.ops[0]
@@ -342,7 +371,7 @@ class SymT:
                 if isinstance(op, ast.Eq):
                     return f"{a[0]} = {b[0]}"
                 _fail(n, "unsupported string comparison")
-            sym = {ast.Gt: ">", ast.Lt: "<", ast.GtE: "≥", ast.LtE: "≤", ast.Eq: "="}.get(type(op))
+            sym = {ast.Gt: ">", ast.Lt: "<", ast.GtE: "≥", ast.LtE: "≤", ast.Eq: "=", ast.NotEq: "≠"}.get(type(op))
             if sym is None:
                 _fail(n, "unsupported comparison")
             want = "rat" if "rat" in (a[1], b[1]) else ("int" if "int" in (a[1], b[1]) else "rat")
@@ -364,7 +393,31 @@ class SymT:
                 name = f.id if isinstance(f, ast.Name) else getattr(f, "attr", None)
                 if name in self.ignore_calls:
                     continue
+                if isinstance(f, ast.Attribute) and f.attr == "append" and isinstance(f.value, ast.Name) \
+                        and f.value.id in self.lists and len(st.value.args) == 1:
+                    self.lists[f.value.id].append(self.expr(st.value.args[0]))
+                    continue
                 _fail(st, "unsupported call statement")
+            if isinstance(st, ast.For) and not st.orelse:
+                # statically unrolled loops: for i, x in enumerate(reversed(<fixed-length argument>))
+                it = st.iter
+                if isinstance(it, ast.Call) and isinstance(it.func, ast.Name) and it.func.id == "enumerate" and len(it.args) == 1 \
+                        and isinstance(it.args[0], ast.Call) and isinstance(it.args[0].func, ast.Name) \
+                        and it.args[0].func.id == "reversed" and isinstance(it.args[0].args[0], ast.Name) \
+                        and isinstance(st.target, ast.Tuple) and len(st.target.elts) == 2:
+                    base = it.args[0].args[0].id
+                    items = []
+                    while f"{base}[{len(items)}]" in self.env:
+                        items.append(self.env[f"{base}[{len(items)}]"])
+                    if not items:
+                        _fail(st, "loop over a sequence of unknown length")
+                    for k, item in enumerate(reversed(items)):
+                        self.env[st.target.elts[0].id] = (str(k), "num")
+                        self.env[st.target.elts[1].id] = item
+                        if self.run(st.body) is not None:
+                            _fail(st, "return inside loop")
+                    continue
+                _fail(st, "unsupported loop")
             if isinstance(st, ast.Assign) and len(st.targets) == 1:
                 t, v = st.targets[0], st.value
                 if isinstance(t, ast.Tuple):
@@ -379,14 +432,17 @@ class SymT:
                     for k, e in enumerate(v.elts):
                         self.env[f"{t.id}[{k}]"] = self.expr(e)
                     self.env[t.id] = ("<tuple>", "tuple:" + str(len(v.elts)))
+                elif isinstance(t, ast.Name) and isinstance(v, ast.List) and not v.elts:
+                    self.lists[t.id] = []
                 elif isinstance(t, ast.Name):
                     self.env[t.id] = self.expr(v)
                 else:
                     _fail(st, "unsupported assignment")
-            elif isinstance(st, ast.AugAssign) and isinstance(st.target, ast.Name) and isinstance(st.op, ast.Add):
+            elif isinstance(st, ast.AugAssign) and isinstance(st.target, ast.Name) and isinstance(st.op, (ast.Add, ast.Sub)):
                 a, b = self.env[st.target.id], self.expr(st.value)
                 ty = "rat" if "rat" in (a[1], b[1]) else a[1]
-                self.env[st.target.id] = (f"({self.cast(a, ty)} + {self.cast(b, ty)})", ty)
+                sym = "+" if isinstance(st.op, ast.Add) else "-"
+                self.env[st.target.id] = (f"({self.cast(a, ty)} {sym} {self.cast(b, ty)})", ty)
             elif isinstance(st, ast.If):
                 if len(st.body) == 1 and isinstance(st.body[0], ast.Raise) and not st.orelse:
                     self.guards.append(self.cond(st.test))
@@ -396,7 +452,9 @@ class SymT:
                 c = self.cond(st.test)
                 a, b = SymT(self.ignore_calls), SymT(self.ignore_calls)
                 a.env, b.env = dict(self.env), dict(self.env)
-                if a.run(st.body) is not None or b.run(st.orelse) is not None or a.guards or b.guards:
+                a.lists = {k: list(v) for k, v in self.lists.items()}
+                b.lists = {k: list(v) for k, v in self.lists.items()}
+                if a.run(st.body) is not None or b.run(st.orelse) is not None or a.guards or b.guards or a.lists != b.lists:
                     _fail(st, "return/raise inside a branch")
                 for k in set(a.env) | set(b.env):
                     if a.env.get(k) != b.env.get(k):
@@ -413,6 +471,11 @@ class SymT:
                 if isinstance(v, ast.Name) and self.env.get(v.id, ("", ""))[1].startswith("tuple:"):
                     n = int(self.env[v.id][1].split(":")[1])
                     return [self.env[f"{v.id}[{k}]"] for k in range(n)]
+                if isinstance(v, ast.Call) and isinstance(v.func, ast.Name) and v.func.id == "tuple" and len(v.args) == 1 \
+                        and isinstance(v.args[0], ast.Call) and isinstance(v.args[0].func, ast.Name) \
+                        and v.args[0].func.id == "reversed" and isinstance(v.args[0].args[0], ast.Name) \
+                        and v.args[0].args[0].id in self.lists:
+                    return list(reversed(self.lists[v.args[0].args[0].id]))
                 elts = v.elts if isinstance(v, ast.Tuple) else [v]
                 return [self.expr(e) for e in elts]
             else:
@@ -425,7 +488,7 @@ def json_str(s):
     return json.dumps(s)
 
 
-def translate_typed(path, name, lean_name, params, rettypes, ignore_calls=(), stop_after=None):
+def translate_typed(path, name, lean_name, params, rettypes, ignore_calls=(), stop_after=None, within_if=None):
     """params: list of (python name or 'name[k]', lean name, type).  rettypes: list of lean types of the returned tuple.
     stop_after: translate only the statements up to and including the first one that assigns this name last (prefix of the body),
     returning the names listed in rettypes as (python name, type) pairs instead of the function's own return."""
@@ -436,6 +499,12 @@ def translate_typed(path, name, lean_name, params, rettypes, ignore_calls=(), st
     for py, lean, ty in params:
         s.env[py] = (lean, ty)
     body = fn.body
+    if within_if is not None:
+        # translate the body of the top-level `if <within_if>:` statement only
+        sel = [st for st in body if isinstance(st, ast.If) and isinstance(st.test, ast.Name) and st.test.id == within_if]
+        if len(sel) != 1:
+            raise Untranslatable(f"{name}: no unique `if {within_if}:` block")
+        body = sel[0].body
     if stop_after is not None:
         cut = None
         for i, st in enumerate(body):
@@ -453,11 +522,14 @@ def translate_typed(path, name, lean_name, params, rettypes, ignore_calls=(), st
     else:
         outs = s.run(body)
         rts = rettypes
+        if outs is None and not rts:
+            outs = []
     if outs is None or len(outs) != len(rts):
         raise Untranslatable(f"{name}: expected {len(rts)} returned value(s)")
     lean_ty = {"rat": "Rat", "int": "Int", "bool": "Bool", "str": "String"}
     vals = ", ".join(SymT.cast(o, t) if t in ("rat", "int") else o[0] for o, t in zip(outs, rts))
-    rtype = " × ".join(lean_ty[t] for t in rts)
+    rtype = " × ".join(lean_ty[t] for t in rts) if rts else "Unit"
+
     seen, args = set(), []
     for _, lean, ty in params:
         if lean not in seen:
@@ -497,6 +569,20 @@ def generate_coords():
                         [("region[0]", "w", "rat"), ("region[1]", "e", "rat"), ("region[2]", "s", "rat"), ("region[3]", "n", "rat")],
                         [("interval_360", "bool"), ("w", "rat"), ("e", "rat")], ignore_calls=("_check_geographic_region",),
                         stop_after="region"),
+        translate_typed("verde/coordinates.py", "longitude_continuity", "lonPoint",
+                        [("interval_360", "interval360", "bool"), ("coordinates[0]", "lon", "rat")],
+                        [("longitude", "rat")], ignore_calls=("_check_geographic_coordinates",),
+                        stop_after="coordinates", within_if="coordinates"),
+        translate_typed("verde/coordinates.py", "check_region", "checkRegion4",
+                        [("region[0]", "w", "rat"), ("region[1]", "e", "rat"), ("region[2]", "s", "rat"), ("region[3]", "n", "rat")], []),
+        translate_typed("verde/coordinates.py", "_check_geographic_region", "checkGeoRegion",
+                        [("region[0]", "w", "rat"), ("region[1]", "e", "rat"), ("region[2]", "s", "rat"), ("region[3]", "n", "rat")], []),
+        translate_typed("verde/coordinates.py", "_check_geographic_coordinates", "geoCoordBad",
+                        [("coordinates[0]", "lon", "rat"), ("coordinates[1]", "lat", "rat")], []),
+        translate_typed("verde/coordinates.py", "shape_to_spacing", "shapeToSpacing",
+                        [("region[0]", "w", "rat"), ("region[1]", "e", "rat"), ("region[2]", "s", "rat"), ("region[3]", "n", "rat"),
+                         ("shape[0]", "nNorth", "int"), ("shape[1]", "nEast", "int"), ("pixel_register", "pixel", "bool")],
+                        ["rat", "rat"]),
     ]
     return HEADER_COORDS + "\n".join(parts) + "\nend Verde.Gen\n"
 
